@@ -180,7 +180,7 @@ func TestC06Matrix(t *testing.T) {
 	col := stats.New("C06")
 	col.Sub = "matrix"
 	defer finish(t, col)
-	col.Rule = "matrix: {NMI, maskable} x IM{0,1,2} x IFF1 x IFF2 x {running, parked on HALT} enumerated completely, x data shapes (mode 0: RST p for all 8 p, CALL nn, NOP, INC B, LD A,n; " +
+	col.Rule = "matrix: {NMI, maskable} x IM{0,1,2} x IFF1 x IFF2 x {running, parked on HALT} enumerated completely, x data shapes (mode 0: RST p for all 8 p, CALL nn, NOP, INC B, LD A,n and one of ED 4A / ED 52 / DD 09 / FD 23 / CB xx / ED 44 / DD 21 nn / 09 / 2F; " +
 		"mode 1: empty and junk data; mode 2: all 128 even vectors) x rapid-drawn I, PC, SP (edges, wrap), registers and memory; one Step each, compared with the interrupt model " +
 		"(push, vector fetch, IFF1/IFF2, request consumed or kept, no program instruction on acceptance, program instruction on refusal); non-trivial = request accepted; distinct by hash(controls, data, state)"
 	rig := newLockRig()
@@ -232,6 +232,8 @@ func TestC06Matrix(t *testing.T) {
 					shapes = append(shapes, []int{0xC7 | p<<3})
 				}
 				shapes = append(shapes, []int{0xCD, int(d.ops[1]), int(d.ops[2])}, []int{0x00}, []int{0x04}, []int{0x3E, int(d.ops[0])})
+				// prefixed instructions (every byte comes from the device)
+				shapes = append(shapes, [][]int{{0xED, 0x4A}, {0xED, 0x52}, {0xDD, 0x09}, {0xFD, 0x23}, {0xCB, 0x00 | int(d.ops[0])&0x3F}, {0xED, 0x44}, {0xDD, 0x21, int(d.ops[1]), int(d.ops[2])}, {0x09}, {0x2F}}[int(d.memSeed>>32)%9])
 			case st.IM == 1:
 				shapes = [][]int{nil, {int(d.ops[0]), int(d.ops[1])}}
 			default:
@@ -295,8 +297,10 @@ func TestC06Histories(t *testing.T) {
 		intData := func(t *rapid.T) []int {
 			switch rig.ms.IM {
 			case 0:
-				k := rapid.IntRange(0, 11).Draw(t, "im0shape")
+				k := rapid.IntRange(0, 14).Draw(t, "im0shape")
 				switch {
+				case k >= 12:
+					return rapid.SampledFrom([][]int{{0xED, 0x4A}, {0xED, 0x52}, {0xDD, 0x09}, {0xFD, 0x23}, {0xCB, 0x07}, {0xED, 0x44}, {0xFD, 0x21, 0x34, 0x12}, {0x19}, {0x08}}).Draw(t, "im0prefixed")
 				case k < 8:
 					return []int{0xC7 | k<<3}
 				case k == 8:
